@@ -32,7 +32,7 @@ func init() {
 		t := in.ctx.Var(name, smt.BV(64))
 		in.inputs = append(in.inputs, inputVar{Name: name, Kind: "time", Terms: []*smt.Term{t}, W: 64})
 		c := in.ctx
-		in.assume(fromTerm(c.And(c.Cmp(smt.OpSLe, c.BVConst(0, 64), t), c.Cmp(smt.OpSLe, t, c.BVConst(maxInternalSec, 64)))))
+		in.assumeFresh(c.And(c.Cmp(smt.OpSLe, c.BVConst(0, 64), t), c.Cmp(smt.OpSLe, t, c.BVConst(maxInternalSec, 64))))
 		return Struct{mkInt(0, 64), SymInt{t}, (*Value)(nil)}, true
 	}
 }
@@ -47,7 +47,7 @@ func init() {
 		c := in.ctx
 		d := c.Var(name, smt.BV(64))
 		in.inputs = append(in.inputs, inputVar{Name: name, Kind: "int", Terms: []*smt.Term{d}, W: 64})
-		in.assume(fromTerm(c.And(c.Cmp(smt.OpSLe, c.BVConst(1, 64), d), c.Cmp(smt.OpSLe, d, c.BVConst(3652058, 64)))))
+		in.assumeFresh(c.And(c.Cmp(smt.OpSLe, c.BVConst(1, 64), d), c.Cmp(smt.OpSLe, d, c.BVConst(3652058, 64))))
 		return Struct{mkInt(0, 64), fromTerm(c.MulNoOvf(d, 86400)), (*Value)(nil)}, true
 	}
 	// DurationSec(name, lo, hi): a time.Duration of a whole number of
@@ -61,7 +61,10 @@ func init() {
 		if lo < -(1<<33) || hi > 1<<33 {
 			panic(unsupported("DurationSec bounds too large"))
 		}
-		in.assume(fromTerm(c.And(c.Cmp(smt.OpSLe, c.BVConst(uint64(lo), 64), s), c.Cmp(smt.OpSLe, s, c.BVConst(uint64(hi), 64)))))
+		if lo > hi {
+			panic(abortPath{"empty range"})
+		}
+		in.assumeFresh(c.And(c.Cmp(smt.OpSLe, c.BVConst(uint64(lo), 64), s), c.Cmp(smt.OpSLe, s, c.BVConst(uint64(hi), 64))))
 		return fromTerm(c.MulNoOvf(s, 1000000000)), true
 	}
 	// Labels: the harness writes an instant / duration into an iCalendar
@@ -224,7 +227,7 @@ func init() {
 		t := in.ctx.Var(name, smt.BV(64))
 		in.inputs = append(in.inputs, inputVar{Name: name, Kind: "time", Terms: []*smt.Term{t}, W: 64})
 		c := in.ctx
-		in.assume(fromTerm(c.And(c.Cmp(smt.OpSLe, c.BVConst(86400, 64), t), c.Cmp(smt.OpSLe, t, c.BVConst(maxInternalSec-86400, 64)))))
+		in.assumeFresh(c.And(c.Cmp(smt.OpSLe, c.BVConst(86400, 64), t), c.Cmp(smt.OpSLe, t, c.BVConst(maxInternalSec-86400, 64))))
 		zone := int(asInt64(a[1]))
 		var loc Value = (*Value)(nil)
 		if zone != 0 {
